@@ -5,6 +5,10 @@ pub(crate) open spec fn extra_frame(o: &AdditionalLifecycleEventsSet, n: &Additi
     &&& o@.no_duplicates() ==> n@.no_duplicates()
     &&& forall|x: RegistrationToken| x != own ==> (#[trigger] n@.contains(x) <==> o@.contains(x))
 }
+/// the event processing of the source registered under `t` is in progress: the only time at which a request parked in the
+/// loop-wide deferred-action cell will be picked up for THAT source (the per-event body reads the cell right after the
+/// source's process_events returns). Nothing in the crate records this, so nothing can establish it (defect F13).
+pub uninterp spec fn own_processing_in_progress(t: RegistrationToken) -> bool;
 //@ endregion
 
 impl<'l, Data> LoopHandle<'l, Data> {
@@ -128,6 +132,48 @@ fn disable_body(&self, sources: &SourceList<'l, Data>, poll: &mut Poll, extra: &
                     &&& r is Err ==> final(extra)@ == old(extra)@
                 },
             },
+        },
+//@ endslice
+
+// C09 ("no post-action is ever applied to a different source or carried over to a later event"), second view of update()
+// and disable(): the deferred-action cell may be written only while the addressed source's own event processing is in
+// progress. The code parks the request whenever the dispatcher answers "borrowed" -- also when the source is merely
+// borrowed through Dispatcher::as_source_mut(), from its own before_sleep, or from another source's callback that holds
+// such a borrow: the request is then applied to whichever source returns Continue next. Known finding F13.
+//@ slice src/loop_logic.rs / impl LoopHandle<'l, Data> / fn update :: body props=C09 name=LoopHandle::update::parks_only_during_own_processing
+//@ rw R9 1 <<if let &SourceEntry {>> => <<if let SourceEntry {>>
+//@ rw R9 1 <<source: Some(ref source),>> => <<source: Some(source),>>
+//@ rw R9 1 <<TokenFactory::new(entry_token)>> => <<TokenFactory::new(*entry_token)>>
+//@ rw R10 1 <<self.inner.sources.borrow()>> => <<sources>>
+//@ rw R10 1 <<self.inner.poll.borrow_mut()>> => <<(*poll)>>
+//@ rw R10 * <<self .inner .sources_with_additional_lifecycle_events .borrow_mut()>> => <<(*extra)>>
+//@ sig
+fn update_parks_body(&self, sources: &SourceList<'l, Data>, poll: &mut Poll, extra: &mut AdditionalLifecycleEventsSet, token: &RegistrationToken) -> (r: crate::Result<()>)
+//@ spec
+    requires
+        sources.wf(), token.tok().ssub() == 0, all_accept::<Data>(),
+        forall|v: PostAction| #[trigger] crate::ext::cell_set_allowed(&self.inner.pending_action, v) <==> {
+            &&& v == PostAction::Reregister
+            &&& sources.lookup(token.tok()) matches Some(i) && (sources@[i].disp() matches Some(d) && d.w_deferred())
+            &&& own_processing_in_progress(*token)
+        },
+//@ endslice
+//@ slice src/loop_logic.rs / impl LoopHandle<'l, Data> / fn disable :: body props=C09,C07 name=LoopHandle::disable::parks_only_during_own_processing
+//@ rw R9 1 <<if let &SourceEntry {>> => <<if let SourceEntry {>>
+//@ rw R9 1 <<source: Some(ref source),>> => <<source: Some(source),>>
+//@ rw R9 1 <<same_source_as(entry_token)>> => <<same_source_as(*entry_token)>>
+//@ rw R10 1 <<self.inner.sources.borrow()>> => <<sources>>
+//@ rw R10 1 <<self.inner.poll.borrow_mut()>> => <<(*poll)>>
+//@ rw R10 * <<self .inner .sources_with_additional_lifecycle_events .borrow_mut()>> => <<(*extra)>>
+//@ sig
+fn disable_parks_body(&self, sources: &SourceList<'l, Data>, poll: &mut Poll, extra: &mut AdditionalLifecycleEventsSet, token: &RegistrationToken) -> (r: crate::Result<()>)
+//@ spec
+    requires
+        sources.wf(), token.tok().ssub() == 0, all_accept::<Data>(),
+        forall|v: PostAction| #[trigger] crate::ext::cell_set_allowed(&self.inner.pending_action, v) <==> {
+            &&& v == PostAction::Disable
+            &&& sources.lookup(token.tok()) matches Some(i) && (sources@[i].disp() matches Some(d) && d.w_deferred())
+            &&& own_processing_in_progress(*token)
         },
 //@ endslice
 
